@@ -198,3 +198,21 @@ MANIFEST_TEXT["C11"] = {
             "with the prescribed outcome class per call. Each history is replayed on ONE real instance; TLC validates every event with the ordinary fresh-instance relations (issue.exact, "
             "present.exact, verify.view ...), the model's outcome class (hist.expect) and disjointness from everything the instance emitted before (issue.history).",
     "note": _NOTE, "technique": "TLA+ exhaustive history enumeration (TLC) + replay on one instance + trace validation"}
+
+PLANS["C13"] = P(
+    "model_checking",
+    ["issue.refuse.reserved", "issue.accept", "hist.expect"],
+    [{"module": "MC_reserved", "quick": "MC_reserved_quick.cfg", "thorough": "MC_reserved.cfg", "timeout": {"quick": 300, "thorough": 900}}],
+    [{"driver": "replay", "scn": "MC_reserved", "args": {"n": 800, "matrix": 1}}, {"driver": "rich", "args": {"n": 600, "depth": 5, "only": "issue", "plant": 0.6}}],
+    [{"driver": "replay", "scn": "MC_reserved", "args": {"n": 100000, "matrix": 1}}, {"driver": "rich", "args": {"n": 30000, "depth": 8, "only": "issue", "plant": 0.6}}],
+    required={"issue.refuse.reserved": 500, "issue.accept": 300, "hist.expect": 500},
+    nontrivial_event="Issue",
+    rule="cases = Issue calls: a member named _sd or ... planted at every object position (root, nested, inside arrays, inside values that become hidden, under iat) of every tree of "
+         "the bounded universe x 3 values x every strategy kind (Custom aimed at the planted position and at its top-level ancestor), with the unplanted control; plus random trees "
+         "(depth <= 8) with a reserved member planted at a random object with probability 0.6; distinct = distinct (claims, strategy)",
+    assumptions=_A,
+)
+MANIFEST_TEXT["C13"] = {
+    "text": "IssueRefuse is the first stage of the specified issuer: HasReserved(U) => refused and nothing reaches the wire (Inv_C13), otherwise issued. TLC enumerates the planting "
+            "positions of the bounded universe; each behaviour and random planted trees are executed on the real issuer and judged by TLC (issue.refuse.reserved, issue.accept, hist.expect).",
+    "note": _NOTE, "technique": "TLA+ bounded model checking (TLC) + scenario replay + trace validation"}
